@@ -35,25 +35,14 @@ def add (h : Header) (k v : String) : Header :=
   if h.any (fun e => e.1 == k) then h.map (fun e => if e.1 == k then (e.1, e.2 ++ [v]) else e)
   else h ++ [(k, [v])]
 
-/-- `Header.Set` -/
-def set (h : Header) (k v : String) : Header :=
-  if h.any (fun e => e.1 == k) then h.map (fun e => if e.1 == k then (e.1, [v]) else e)
-  else h ++ [(k, [v])]
+/-- `dst[k] = append(dst[k], vv...)` -/
+def appendVals (h : Header) (k : String) (vs : List String) : Header :=
+  if h.any (fun e => e.1 == k) then h.map (fun e => if e.1 == k then (e.1, e.2 ++ vs) else e)
+  else h ++ [(k, vs)]
 
-/-- `h[k][0] = v` when `h[k]` is non-empty (in-place overwrite of the first value) -/
-def set0 (h : Header) (k v : String) : Header :=
-  h.map (fun e => if e.1 == k then (e.1, match e.2 with | [] => [] | _ :: vs => v :: vs) else e)
-
-/-- `h[k][len-1] = v` when `h[k]` is non-empty (in-place overwrite of the last value) -/
-def setLast (h : Header) (k v : String) : Header :=
-  h.map (fun e => if e.1 == k then (e.1, match e.2 with | [] => [] | vs => vs.dropLast ++ [v]) else e)
-
-/-- `Header.Del` -/
-def del (h : Header) (k : String) : Header := h.filter (fun e => e.1 != k)
-
-/-- `utils.CopyHeaders(dst, src)`: `dst[k] = append(dst[k], vv...)` for every key of `src` -/
+/-- `utils.CopyHeaders(dst, src)`: `dst[k] = append(dst[k], vv...)` for every key of `src` (value level) -/
 def copyInto (dst src : Header) : Header :=
-  src.foldl (fun d e => e.2.foldl (fun d v => add d e.1 v) d) dst
+  src.foldl (fun d e => appendVals d e.1 e.2) dst
 
 end Header
 
@@ -97,15 +86,10 @@ inductive HdrOp where
   | setLast (k v : String)
 deriving Repr, DecidableEq
 
-def HdrOp.apply (h : Header) : HdrOp → Header
-  | .set k v => Header.set h k v
-  | .add k v => Header.add h k v
-  | .del k => Header.del h k
-  | .set0 k v => Header.set0 h k v
-  | .setLast k v => Header.setLast h k v
-
 /-- what the protected handler does on one invocation, in this order: read from the body, change
-    its copy of the request, add response headers, `WriteHeader`, `Write` calls, `Flush`, `Hijack`. -/
+    its copy of the request (through the pointers it was given), add response headers, `WriteHeader`,
+    `Write` calls, then (late) more response headers and another `WriteHeader`, `Flush`, and finally
+    either panic or `Hijack`. -/
 structure Attempt where
   /-- `none`: read to EOF; `some k`: read at most `k` bytes -/
   read : Option Nat := none
@@ -114,9 +98,15 @@ structure Attempt where
   respHdr : List (String × String) := []
   status : Option Nat := none
   writes : List Bytes := []
+  /-- response headers added after the writes (the captured map is live until the response is delivered) -/
+  lateHdr : List (String × String) := []
+  /-- `WriteHeader` after the writes: `bufferWriter.WriteHeader` overwrites the captured code unconditionally -/
+  lateStatus : Option Nat := none
   hijack : Bool := false
   /-- the handler asks for `http.Flusher`; `bufferWriter` does not offer it, so nothing happens -/
   flush : Bool := false
+  /-- the handler panics (e.g. `http.ErrAbortHandler`) after everything above, instead of returning -/
+  panic : Bool := false
 deriving Repr
 
 /-! ## `multibuf.New` -/
@@ -249,6 +239,8 @@ structure BW where
   hijacked : Bool := false
   written : Bool := false
   writeError : Bool := false
+  /-- the call `b.next.ServeHTTP(bw, outReq)` did not return: the handler panicked -/
+  panicked : Bool := false
 deriving Repr
 
 def BW.write (b : BW) (p : Bytes) : BW :=
@@ -297,8 +289,86 @@ def sizeErrHandler (u : Up) : Err → Up
   | .maxSize => (u.writeHeader 413).write (textBytes "Request Entity Too Large")
   | .other => (u.writeHeader 500).write (textBytes "Internal Server Error")
 
-/-! ## the request copy and one handler invocation -/
+/-! ## the store: what is shared and what is fresh
 
+`*http.Request`, `*url.URL`, `http.Header` (a map) and its `[]string` values are references.  The
+store makes that explicit so that *sharing* between the client's request and the copies handed to
+the handler is expressible: a header map is a list `key ↦ slice id`, a slice id names a backing array
+of values, a URL id names a `url.URL` object.  Allocation hands out the next unused id. -/
+
+structure Heap where
+  slices : Nat → List String := fun _ => []
+  nSlices : Nat := 0
+  maps : Nat → List (String × Nat) := fun _ => []
+  nMaps : Nat := 0
+  urls : Nat → String := fun _ => ""
+  nUrls : Nat := 0
+
+/-- a fresh backing array holding `vs` -/
+def Heap.allocSlice (h : Heap) (vs : List String) : Heap × Nat :=
+  ({ h with slices := fun i => if i = h.nSlices then vs else h.slices i, nSlices := h.nSlices + 1 }, h.nSlices)
+
+/-- a fresh `url.URL` object (`out := *i`) -/
+def Heap.allocUrl (h : Heap) (u : String) : Heap × Nat :=
+  ({ h with urls := fun i => if i = h.nUrls then u else h.urls i, nUrls := h.nUrls + 1 }, h.nUrls)
+
+/-- a fresh map object with the given entries -/
+def Heap.allocMap (h : Heap) (es : List (String × Nat)) : Heap × Nat :=
+  ({ h with maps := fun i => if i = h.nMaps then es else h.maps i, nMaps := h.nMaps + 1 }, h.nMaps)
+
+def Heap.setMap (h : Heap) (m : Nat) (es : List (String × Nat)) : Heap :=
+  { h with maps := fun i => if i = m then es else h.maps i }
+
+/-- write through a slice reference: every holder of the id sees it -/
+def Heap.writeSlice (h : Heap) (s : Nat) (vs : List String) : Heap :=
+  { h with slices := fun i => if i = s then vs else h.slices i }
+
+/-- write through a `*url.URL` -/
+def Heap.writeUrl (h : Heap) (u : Nat) (v : String) : Heap :=
+  { h with urls := fun i => if i = u then v else h.urls i }
+
+/-- the header values reachable from map `m` -/
+def Heap.readMap (h : Heap) (m : Nat) : Header := (h.maps m).map (fun e => (e.1, h.slices e.2))
+
+/-- put every value list of `H` into a fresh backing array; returns the entries `key ↦ slice id` -/
+def Heap.storeSlices (h : Heap) (H : Header) : Heap × List (String × Nat) :=
+  H.foldl (fun acc e => ((acc.1.allocSlice e.2).1, acc.2 ++ [(e.1, (acc.1.allocSlice e.2).2)])) (h, [])
+
+/-- a fresh map all of whose values sit in fresh backing arrays -/
+def Heap.storeHeader (h : Heap) (H : Header) : Heap × Nat :=
+  (h.storeSlices H).1.allocMap (h.storeSlices H).2
+
+/-- the request as `ServeHTTP` holds it: pointers into the store -/
+structure ReqRef where
+  method : String
+  urlId : Nat
+  mapId : Nat
+
+/-- the client's request placed in an empty store -/
+def Heap.ofReq (req : Req) : Heap × ReqRef :=
+  let h0 : Heap := {}
+  let u := h0.allocUrl req.url
+  let m := u.1.storeHeader req.header
+  (m.1, ⟨req.method, u.2, m.2⟩)
+
+/-- what the handler is given (`&o`): its own struct, and pointers to a URL object and a header map -/
+structure OutRef where
+  method : String
+  urlId : Nat
+  mapId : Nat
+  contentLength : Int
+  transferEncoding : List String
+
+/-- `copyRequest(req, body, totalSize)`: `o := *req`; `o.URL = utils.CopyURL(req.URL)` is a new URL object;
+    `o.Header = make(http.Header)` is a new map and `utils.CopyHeaders` fills it with
+    `dst[k] = append(dst[k], vv...)` where `dst[k]` starts out nil, i.e. every value list lands in a newly
+    allocated backing array.  (The body reader is threaded separately.) -/
+def copyRequestH (h : Heap) (r : ReqRef) (size : Nat) : Heap × OutRef :=
+  let u := h.allocUrl (h.urls r.urlId)
+  let m := u.1.storeHeader (Header.copyInto [] (u.1.readMap r.mapId))
+  (m.1, ⟨r.method, u.2, m.2, (size : Int), []⟩)
+
+/-- the request copy as a value -/
 structure OutReq where
   method : String
   url : String
@@ -307,10 +377,47 @@ structure OutReq where
   transferEncoding : List String
 deriving Repr
 
-/-- `copyRequest(req, body, totalSize)` (the body reader is threaded separately) -/
+/-- what the handler sees when it follows its pointers -/
+def Heap.deref (h : Heap) (o : OutRef) : OutReq :=
+  ⟨o.method, h.urls o.urlId, h.readMap o.mapId, o.contentLength, o.transferEncoding⟩
+
+/-- the value every attempt is meant to see -/
 def copyRequest (req : Req) (size : Nat) : OutReq :=
   { method := req.method, url := req.url, header := Header.copyInto [] req.header,
     contentLength := (size : Int), transferEncoding := [] }
+
+def mapLookup (es : List (String × Nat)) (k : String) : Option Nat := es.lookup k
+
+/-- `m[k] = s` -/
+def mapPut (es : List (String × Nat)) (k : String) (s : Nat) : List (String × Nat) :=
+  if es.any (fun e => e.1 == k) then es.map (fun e => if e.1 == k then (e.1, s) else e) else es ++ [(k, s)]
+
+/-- a header mutation by the handler, through the map pointer `m` it was given -/
+def HdrOp.applyH (h : Heap) (m : Nat) : HdrOp → Heap
+  | .set k v =>       -- `h[k] = []string{v}`
+    (h.allocSlice [v]).1.setMap m (mapPut (h.maps m) k (h.allocSlice [v]).2)
+  | .add k v =>       -- `h[k] = append(h[k], v)`: modelled as a new backing array (an append into spare capacity is
+                      -- not visible through any other slice header, whose length is unchanged)
+    let old := match mapLookup (h.maps m) k with
+      | some s => h.slices s
+      | none => []
+    (h.allocSlice (old ++ [v])).1.setMap m (mapPut (h.maps m) k (h.allocSlice (old ++ [v])).2)
+  | .del k => h.setMap m ((h.maps m).filter (fun e => e.1 != k))
+  | .set0 k v =>      -- `h[k][0] = v`: in place
+    match mapLookup (h.maps m) k with
+    | some s => h.writeSlice s (match h.slices s with | [] => [] | _ :: vs => v :: vs)
+    | none => h
+  | .setLast k v =>   -- `h[k][len-1] = v`: in place
+    match mapLookup (h.maps m) k with
+    | some s => h.writeSlice s (match h.slices s with | [] => [] | vs => vs.dropLast ++ [v])
+    | none => h
+
+/-- everything the handler does to its request copy: header mutations, then `r.URL.Path = …` -/
+def handlerHeap (a : Attempt) (h : Heap) (o : OutRef) : Heap :=
+  let h1 := a.hdrOps.foldl (fun h op => HdrOp.applyH h o.mapId op) h
+  match a.setUrl with
+  | some u => h1.writeUrl o.urlId u
+  | none => h1
 
 /-- what an invocation saw on entry, what it read, and the temp files on disk when it returned -/
 structure View where
@@ -319,27 +426,32 @@ structure View where
   filesAtExit : Nat
 deriving Repr
 
-/-- the response half of an invocation: response headers, `WriteHeader`, the `Write` calls, `Hijack` -/
+/-- the response half of an invocation: response headers, `WriteHeader`, the `Write` calls, late headers,
+    late `WriteHeader`, then panic or `Hijack` -/
 def respond (a : Attempt) (bw : BW) (canHijack : Bool) : BW :=
   let bw1 : BW := { bw with header := a.respHdr.foldl (fun h e => Header.add h e.1 e.2) bw.header }
   let bw2 : BW := match a.status with
     | some c => bw1.writeHeader c
     | none => bw1
   let bw3 : BW := a.writes.foldl BW.write bw2
-  if a.hijack && canHijack then { bw3 with hijacked := true } else bw3
+  let bw4 : BW := { bw3 with header := a.lateHdr.foldl (fun h e => Header.add h e.1 e.2) bw3.header }
+  let bw5 : BW := match a.lateStatus with
+    | some c => bw4.writeHeader c
+    | none => bw4
+  if a.panic then { bw5 with panicked := true }
+  else if a.hijack && canHijack then { bw5 with hijacked := true } else bw5
 
 structure Ran where
-  out : OutReq          -- the handler's copy as it left it
   bodyRead : Bytes
   body : Option MultiBuf
   bw : BW
+  heap : Heap
 
-def runHandler (a : Attempt) (o : OutReq) (body : Option MultiBuf) (bw : BW) (canHijack : Bool) : Ran :=
+def runHandler (a : Attempt) (h : Heap) (o : OutRef) (body : Option MultiBuf) (bw : BW) (canHijack : Bool) : Ran :=
   let rd : Bytes × Option MultiBuf := match body with
     | none => ([], none)                  -- `io.NopCloser(req.Body)`, already at EOF
     | some b => ((b.read a.read).1, some (b.read a.read).2)
-  let o1 : OutReq := { o with header := a.hdrOps.foldl HdrOp.apply o.header, url := a.setUrl.getD o.url }
-  ⟨o1, rd.1, rd.2, respond a bw canHijack⟩
+  ⟨rd.1, rd.2, respond a bw canHijack, handlerHeap a h o⟩
 
 /-! ## the retry loop -/
 
@@ -347,6 +459,8 @@ inductive Outcome where
   | hijacked
   | final (up : Up)
   | retry
+  /-- the handler's panic propagates out of `ServeHTTP`: nothing is written, only the deferred closes run -/
+  | panicked
 deriving Repr
 
 structure StepRes where
@@ -356,6 +470,7 @@ structure StepRes where
   rdr : Option Rdr
   body : Option MultiBuf
   outcome : Outcome
+  heap : Heap
 
 /-- the retry decision of buffer.go: `(pred == nil || attempt > 10) || !pred(ctx)` is *stop* -/
 def shouldRetry (cfg : Cfg) (req : Req) (attempt code : Nat) : Bool :=
@@ -378,7 +493,8 @@ structure Settled where
 
 /-- the part of the `for` body after `b.next.ServeHTTP(bw, outReq)` returned; `method` is `outReq.Method` -/
 def settle (cfg : Cfg) (req : Req) (attempt : Nat) (bw : BW) (method : String) : Settled :=
-  if bw.hijacked then ⟨bw, none, .hijacked⟩
+  if bw.panicked then ⟨bw, none, .panicked⟩
+  else if bw.hijacked then ⟨bw, none, .hijacked⟩
   else if bw.writeError then ⟨bw, none, .final (sizeErrHandler {} .other)⟩
   else if bw.expectBody method && bw.written then
     match bw.buffer.reader with
@@ -391,13 +507,14 @@ def settle (cfg : Cfg) (req : Req) (attempt : Nat) (bw : BW) (method : String) :
     if shouldRetry cfg req attempt bw.code then ⟨bw, none, .retry⟩
     else ⟨bw, none, .final (deliver bw none)⟩
 
-/-- one pass through the `for` body; `onDisk` = temp files of earlier attempts still on disk -/
-def attemptStep (cfg : Cfg) (req : Req) (size : Nat) (a : Attempt) (attempt : Nat)
-    (body : Option MultiBuf) (onDisk : Nat) : StepRes :=
-  let o := copyRequest req size
-  let ran := runHandler a o body { buffer := newWriterOnce cfg.maxResp cfg.memResp } cfg.canHijack
-  let s := settle cfg req attempt ran.bw ran.out.method
-  ⟨⟨o, ran.bodyRead, onDisk + (if ran.bw.buffer.onDisk then 1 else 0)⟩, s.bw, s.rdr, ran.body, s.outcome⟩
+/-- one pass through the `for` body; `onDisk` = temp files of earlier attempts still on disk.  The request copy is
+    made from `ServeHTTP`'s own request `r` in the store as it is *now* (after whatever earlier handlers did). -/
+def attemptStep (cfg : Cfg) (req : Req) (r : ReqRef) (size : Nat) (a : Attempt) (attempt : Nat)
+    (body : Option MultiBuf) (onDisk : Nat) (h : Heap) : StepRes :=
+  let c := copyRequestH h r size
+  let ran := runHandler a c.1 c.2 body { buffer := newWriterOnce cfg.maxResp cfg.memResp } cfg.canHijack
+  let s := settle cfg req attempt ran.bw c.2.method
+  ⟨⟨c.1.deref c.2, ran.bodyRead, onDisk + (if ran.bw.buffer.onDisk then 1 else 0)⟩, s.bw, s.rdr, ran.body, s.outcome, ran.heap⟩
 
 /-- a registered pair of deferred closes, run at return: `rdr.Close()` then `bw.Close()` -/
 def runDefers (bw : BW) (rdr : Option Rdr) : BW :=
@@ -411,6 +528,8 @@ structure Result where
   /-- what `Buffer` sent to the client's `ResponseWriter` (`status = none`: nothing) -/
   resp : Up := {}
   hijacked : Bool := false
+  /-- the handler's panic left `ServeHTTP` (net/http then aborts the connection) -/
+  panicked : Bool := false
   /-- temporary files created / removed during the exchange -/
   created : Nat := 0
   removed : Nat := 0
@@ -430,16 +549,17 @@ def finish (up : Up) (hij : Bool) (views : List View) (recs : List (BW × Option
     created := c0 + (closed.map (fun b => b.buffer.created)).sum,
     removed := r0 + (closed.map (fun b => b.buffer.removed)).sum }
 
-def loop (cfg : Cfg) (req : Req) (script : Nat → Attempt) (size c0 r0 : Nat) :
-    Nat → Nat → Option MultiBuf → List View → List (BW × Option Rdr) → Result
-  | 0, _, _, views, recs => { finish {} false views recs c0 r0 with outOfFuel := true }
-  | fuel + 1, attempt, body, views, recs =>
-    let s := attemptStep cfg req size (script attempt) attempt body (onDiskCount recs)
+def loop (cfg : Cfg) (req : Req) (r : ReqRef) (script : Nat → Attempt) (size c0 r0 : Nat) :
+    Nat → Nat → Option MultiBuf → List View → List (BW × Option Rdr) → Heap → Result
+  | 0, _, _, views, recs, _ => { finish {} false views recs c0 r0 with outOfFuel := true }
+  | fuel + 1, attempt, body, views, recs, h =>
+    let s := attemptStep cfg req r size (script attempt) attempt body (onDiskCount recs) h
     match s.outcome with
     | .hijacked => finish {} true (views ++ [s.view]) ((s.bw, s.rdr) :: recs) c0 r0
+    | .panicked => { finish {} false (views ++ [s.view]) ((s.bw, s.rdr) :: recs) c0 r0 with panicked := true }
     | .final up => finish up false (views ++ [s.view]) ((s.bw, s.rdr) :: recs) c0 r0
-    | .retry => loop cfg req script size c0 r0 fuel (attempt + 1) (s.body.map MultiBuf.seek0)
-                  (views ++ [s.view]) ((s.bw, s.rdr) :: recs)
+    | .retry => loop cfg req r script size c0 r0 fuel (attempt + 1) (s.body.map MultiBuf.seek0)
+                  (views ++ [s.view]) ((s.bw, s.rdr) :: recs) s.heap
 
 /-- `checkLimit` -/
 def checkLimit (cfg : Cfg) (req : Req) : Bool :=
@@ -457,6 +577,7 @@ def serve (cfg : Cfg) (req : Req) (script : Nat → Attempt) : Result :=
     | .ok b =>
       let size := b.length
       let body := if size == 0 then none else some b
-      loop cfg req script size nr.created nr.removed (DefaultMaxRetryAttempts + 1) 1 body [] []
+      loop cfg req (Heap.ofReq req).2 script size nr.created nr.removed (DefaultMaxRetryAttempts + 1) 1 body [] []
+        (Heap.ofReq req).1
 
 end Buf
